@@ -112,6 +112,7 @@ func runC17(p *Prog, r *Report) {
 		byKey[c.Key] = append(byKey[c.Key], c)
 	}
 	oos := map[string]bool{}
+	unkRoles := map[string]bool{}
 	var keys []FieldKey
 	for k := range e.acc {
 		keys = append(keys, k)
@@ -156,6 +157,7 @@ func runC17(p *Prog, r *Report) {
 		}
 		seen := map[string]bool{}
 		inScope := 0
+		_ = unkRoles
 		for _, c := range confl {
 			if c17OutOfScope(c.A) || c17OutOfScope(c.B) {
 				continue
@@ -173,6 +175,28 @@ func runC17(p *Prog, r *Report) {
 			rule := "C17.R1"
 			if c.A.Role == c.B.Role {
 				rule = "C17.R2"
+			}
+			// a goroutine family whose results are collected by a caller of its spawner: the
+			// analysis does not follow that join, so pairs with it are undecided, said once per family
+			jr := joinElsewhere(c.A.Role, c.B.Role)
+			if jr == nil {
+				// ... or goroutines started by code that such a family runs
+				for _, q := range e.Roles {
+					if q.JoinElsewhere && ((c.A.Role.In != nil && q.Reach[c.A.Role.In]) || (c.B.Role.In != nil && q.Reach[c.B.Role.In])) {
+						jr = q
+					}
+				}
+			}
+			if jr != nil {
+				ukey := "goroutines started in " + FuncName(jr.In) + " (" + shortRole(jr) + ") are collected by a caller of that function"
+				if !seen[ukey] {
+					seen[ukey] = true
+					if !unkRoles[ukey] {
+						unkRoles[ukey] = true
+						r.Unk("C17.R1", ukey, p.InstrPos(jr.Go), "the goroutines report on a channel that the spawning function returns: where their results are collected is outside that function and not followed, so their accesses are not ordered against the rest of the program (field "+k.String()+" and others)")
+					}
+				}
+				continue
 			}
 			what := "read"
 			if c.B.Write {
@@ -205,6 +229,9 @@ func runC17(p *Prog, r *Report) {
 			sort.Strings(ts)
 			r.OK("C17.R2", "fork-join family "+shortRole(ro)+": per-instance object types", p.InstrPos(ro.Go), strings.Join(ts, ", "))
 		}
+	}
+	for _, bj := range e.BadJoins {
+		r.Bad("C17.R2", "goroutine family "+bj[0]+" is collected before its starter's caller goes on", "-", bj[1]+": a goroutine that is still starting or sampling then runs concurrently with what follows (closing the devices, the next start), with no ordering between their accesses")
 	}
 	c17R3(p, r)
 	c17R3b(p, r)
@@ -963,4 +990,13 @@ func writesThroughRefOf(g *ssa.Function, k int, direct bool, field string) bool 
 		}
 	})
 	return found
+}
+
+func joinElsewhere(rs ...*Role) *Role {
+	for _, r := range rs {
+		if r != nil && r.JoinElsewhere {
+			return r
+		}
+	}
+	return nil
 }
